@@ -66,12 +66,57 @@ def special_bytes():
     return sorted(sp)
 
 
+def long_payloads():
+    """One-line payloads whose length, in P8SCII characters or in the UTF-8 bytes of their .p8 spelling, sits on either
+    side of 2^15 and 2^16 (the code limit is 65535 characters; a glyph takes 3-7 UTF-8 bytes)."""
+    allb = bytes(b for b in range(1, 256) if b not in (10, 13))
+    out = []
+    for b in (0x80, 0x8b, 0x99, 0x7f, 0x41):
+        for n in (10922, 10923, 21845, 21846, 32767, 32768, 65533):
+            out.append(bytes([b]) * n)
+    for n in (4096, 21846, 32768, 65533):
+        out.append((allb * (n // len(allb) + 1))[:n])
+    return out
+
+
+def check_longline(k, res):
+    import io
+    from pico8.game.formatter.p8 import P8Formatter
+    from lib import carts
+    payload = long_payloads()[k]
+    check_string(payload, res)
+    code = b'--' + payload + b'\nx=1\n'
+    res.evaluations += 1
+    res.nontriv(('longline', k))
+    case = {'kind': 'longline', 'k': k}
+    try:
+        g = carts.make_game({}, version=33, code_lines=[code])
+        buf = io.BytesIO()
+        P8Formatter.to_file(g, buf, filename='t.p8')
+        raw = buf.getvalue()
+        g2 = P8Formatter.from_file(io.BytesIO(raw), filename='t.p8')
+        back = b''.join(g2.lua.to_lines())
+    except Exception as e:
+        res.violation('C15|p8file|longline|raise|%s' % type(e).__name__,
+                      'a .p8 holding one comment line of %d characters (byte %#x..., %d UTF-8 bytes) raised %r' % (
+                          len(payload), payload[0], len(raw) if 'raw' in dir() else -1, e), case)
+        return
+    if back != code:
+        j = next((i for i in range(min(len(back), len(code))) if back[i] != code[i]), min(len(back), len(code)))
+        res.violation('C15|p8file|longline|mismatch',
+                      'a .p8 holding one comment line of %d characters reads back differently from offset %d (%d vs %d bytes)' % (
+                          len(payload), j, len(back), len(code)), case)
+    else:
+        res.outcome(('longline', len(payload) > 32768))
+
+
 def shards(tier, seed):
     items = [('table',)]
     for lo in range(0, 256, 16):
         items.append(('pairs', lo, lo + 16))
     items.append(('triples', tier))
     items.append(('p8file',))
+    items += [('longlines', k) for k in range(len(long_payloads()))]
     return items
 
 
@@ -116,6 +161,11 @@ def run_shard(item):
             for b in range(256):
                 check_string(bytes([a, b]), res)
         res.sample({'bytes': bytes([item[1], 0x8e])})
+        return res
+    if item[0] == 'longlines':
+        check_longline(item[1], res)
+        if item[1] == 0:
+            res.sample({'longline': 'one comment line of 10922 x byte 0x80 (32766 UTF-8 bytes)'})
         return res
     if item[0] == 'p8file':
         # "the Unicode text stored in .p8 files": every byte (and the special pairs) written to a .p8 and read back
@@ -171,7 +221,9 @@ def run_shard(item):
 
 def replay(case):
     res = ShardResult()
-    if case.get('kind') == 'p8file':
+    if case.get('kind') == 'longline':
+        check_longline(case['k'], res)
+    elif case.get('kind') == 'p8file':
         res.merge(run_shard(('p8file',)))
     elif case.get('kind') == 'string':
         check_string(case['bytes'], res)
